@@ -40,6 +40,7 @@ type vfC20Tpt struct {
 	mu     *sync.Mutex
 	kind   map[string]string // address bytes -> "upub" | "tpub" | "upriv"
 	ok     map[string]bool   // address bytes -> outcome
+	mis    map[string]bool   // address bytes -> the transport reaches somebody else (the network path works)
 	req    *int
 }
 
@@ -52,6 +53,7 @@ func (t *vfC20Tpt) Proxy() bool      { return false }
 func (t *vfC20Tpt) Dial(ctx context.Context, raddr ma.Multiaddr, p peer.ID) (transport.CapableConn, error) {
 	t.mu.Lock()
 	k, ok, i := t.kind[string(raddr.Bytes())], t.ok[string(raddr.Bytes())], *t.req
+	mis := t.mis[string(raddr.Bytes())]
 	t.mu.Unlock()
 	t.tr.Emit("tdial_start", "k", k, "i", i)
 	select {
@@ -63,6 +65,9 @@ func (t *vfC20Tpt) Dial(ctx context.Context, raddr ma.Multiaddr, p peer.ID) (tra
 	if !ok {
 		t.tr.Emit("tdial_end", "k", k, "i", i, "ok", false)
 		return nil, errors.New("verif: scripted failure")
+	}
+	if mis {
+		p = peer.ID("vf-c20-somebody-else")
 	}
 	c := newVfStubConn("c", t.local, p, ma.StringCast("/ip4/127.0.0.1/tcp/1"), raddr, false)
 	c.Tpt = t
@@ -86,13 +91,13 @@ func vfC20SwarmScenario(t *testing.T, seed int64, tr *vfh.Trace) {
 		t.Fatal(err)
 	}
 	var mu sync.Mutex
-	kind, okm := map[string]string{}, map[string]bool{}
+	kind, okm, mism := map[string]string{}, map[string]bool{}, map[string]bool{}
 	req := 0
-	quic := &vfC20Tpt{protos: []int{ma.P_QUIC_V1}, tr: tr, local: local, mu: &mu, kind: kind, ok: okm, req: &req, match: func(a ma.Multiaddr) bool {
+	quic := &vfC20Tpt{protos: []int{ma.P_QUIC_V1}, tr: tr, local: local, mu: &mu, kind: kind, ok: okm, mis: mism, req: &req, match: func(a ma.Multiaddr) bool {
 		_, err := a.ValueForProtocol(ma.P_QUIC_V1)
 		return err == nil
 	}}
-	tcp := &vfC20Tpt{protos: []int{ma.P_TCP}, tr: tr, local: local, mu: &mu, kind: kind, ok: okm, req: &req, match: func(a ma.Multiaddr) bool { return mafmt.TCP.Matches(a) }}
+	tcp := &vfC20Tpt{protos: []int{ma.P_TCP}, tr: tr, local: local, mu: &mu, kind: kind, ok: okm, mis: mism, req: &req, match: func(a ma.Multiaddr) bool { return mafmt.TCP.Matches(a) }}
 	for _, tp := range []*vfC20Tpt{quic, tcp} {
 		if err := sw.AddTransport(tp); err != nil {
 			t.Fatal(err)
@@ -126,6 +131,12 @@ func vfC20SwarmScenario(t *testing.T, seed int64, tr *vfh.Trace) {
 		}
 		if hasU {
 			add(fmt.Sprintf("/ip4/%s/udp/%d/quic-v1", pubIPs[rnd.Intn(len(pubIPs))], 4000+i), "upub", healthy)
+			if healthy && rnd.Intn(6) == 0 {
+				// the dial works at the network level but reaches another peer: an outcome of the path, not of the peer
+				mu.Lock()
+				mism[string(addrs[len(addrs)-1].Bytes())] = true
+				mu.Unlock()
+			}
 		}
 		if hasT {
 			add(fmt.Sprintf("/ip4/%s/tcp/%d", pubIPs[rnd.Intn(len(pubIPs))], 4000+i), "tpub", false)
@@ -134,6 +145,26 @@ func vfC20SwarmScenario(t *testing.T, seed int64, tr *vfh.Trace) {
 			add(fmt.Sprintf("/ip4/%s/udp/%d/quic-v1", privIPs[rnd.Intn(len(privIPs))], 4000+i), "upriv", false)
 		}
 		ps.AddAddrs(p, addrs, peerstore.PermanentAddrTTL)
+		if rnd.Intn(4) == 0 {
+			// calls of the swarm's dial function that never reach a transport (context already cancelled, no
+			// transport for the address, dial to self): no dial happened, so the detector has nothing to learn
+			ua := ma.StringCast(fmt.Sprintf("/ip4/%s/udp/%d/quic-v1", pubIPs[rnd.Intn(len(pubIPs))], 3000+i))
+			for j, m := 0, 1+rnd.Intn(n+1); j < m; j++ {
+				var err error
+				how := []string{"cancelled", "notransport", "self"}[rnd.Intn(3)]
+				switch how {
+				case "cancelled":
+					cctx, cancel := context.WithCancel(context.Background())
+					cancel()
+					_, err = sw.dialAddr(cctx, p, ua, nil)
+				case "notransport":
+					_, err = sw.dialAddr(context.Background(), p, ma.StringCast(fmt.Sprintf("/ip4/%s/udp/%d/webrtc-direct", pubIPs[rnd.Intn(len(pubIPs))], 3000+i)), nil)
+				case "self":
+					_, err = sw.dialAddr(context.Background(), local, ua, nil)
+				}
+				tr.Emit("nodial", "how", how, "err", err != nil)
+			}
+		}
 		mu.Lock()
 		req = i
 		mu.Unlock()
